@@ -60,6 +60,8 @@ pub(crate) use substream::Substream;
 mod connection;
 #[cfg(litep2p_verif)]
 pub(crate) use connection::verif_c01_tcp;
+#[cfg(litep2p_verif)]
+pub(crate) use connection::verif_tcploop;
 mod substream;
 
 pub mod config;
